@@ -3,6 +3,7 @@
 //! forwarded to the TLC judges.
 mod dynops;
 mod expr;
+mod fuzz;
 mod term;
 mod util;
 
@@ -13,6 +14,7 @@ fn main() {
     let rest = &args[args.len().min(1)..];
     let code = match mode {
         "expr" => expr::main(rest),
+        "fuzz-expr" => fuzz::main(rest),
         _ => {
             eprintln!("usage: recorder <expr> [options]");
             2
